@@ -18,7 +18,11 @@ type Gen struct {
 	slots []gslot
 	tries []gtry
 	probe bool // a probe is due next
-	Stats map[string]int
+	// a "long" history (Profile.LongPct): the long names / keys it draws from
+	long      bool
+	longNames []string
+	longKeys  []string
+	Stats     map[string]int
 }
 
 type gslot struct {
@@ -62,7 +66,25 @@ func NewGen(seed, index uint64, p *Profile) *Gen {
 	if p.Mode == "mixed" && len(g.slots) < 2 {
 		g.slots = make([]gslot, 2) // both transports are present: even slots are REST sessions, odd slots gRPC connections
 	}
+	if p.LongPct > 0 && len(p.LongNames) > 0 && g.r.IntN(100) < p.LongPct {
+		// two long names per history, so that unlock / renew meet the grants made under them
+		g.long = true
+		g.longNames = []string{p.LongNames[g.r.IntN(len(p.LongNames))], p.LongNames[g.r.IntN(len(p.LongNames))]}
+		if len(p.LongKeys) > 0 {
+			g.longKeys = []string{p.LongKeys[g.r.IntN(len(p.LongKeys))]}
+		}
+		g.Stats["long_histories"]++
+	}
 	return g
+}
+
+// name draws the lock name of a request.
+func (g *Gen) name() string {
+	if g.long && g.r.IntN(100) < 50 {
+		g.Stats["long_name_requests"]++
+		return g.longNames[g.r.IntN(len(g.longNames))]
+	}
+	return pick(g, g.p.Names, "61")
 }
 
 func pick[T any](g *Gen, l []T, def T) T {
@@ -132,6 +154,15 @@ func (g *Gen) keyRef(name string, grpc bool, consume bool) *KeyRef {
 			}
 		}
 		return &KeyRef{Ref: idx}
+	}
+	if g.long && len(g.longKeys) > 0 && g.r.IntN(100) < 12 {
+		// a key is client supplied: a long literal, or a granted key with a long tail
+		g.Stats["long_key_requests"]++
+		lk := g.longKeys[g.r.IntN(len(g.longKeys))]
+		if len(g.tries) > 0 && g.r.IntN(2) == 0 {
+			return &KeyRef{Ref: g.tries[g.r.IntN(len(g.tries))].idx, Suf: lk}
+		}
+		return &KeyRef{Ref: -1, Lit: lk}
 	}
 	if len(g.tries) > 0 && g.r.IntN(100) >= g.p.BadKeyPct {
 		// prefer a grant of the same name (mode "mixed": made over the other transport, not yet unlocked, recent first)
@@ -330,7 +361,7 @@ func (g *Gen) Next(i int) (Ev, bool) {
 			ck := g.cookieKind()
 			g.touch(s, ck)
 			ev := Ev{Op: "req", S: s, Ck: ck, Q: op}
-			name := pick(g, g.p.Names, "61")
+			name := g.name()
 			switch op {
 			case "try":
 				ev.Name, ev.Size, ev.Lt, ev.Body = name, pick(g, g.p.Sizes, nil), pick(g, g.p.Lts, nil), bodies[g.r.IntN(len(bodies))]
